@@ -114,6 +114,23 @@ func c08Gen(rng *verifsim.RNG, idx int, tier string) *Plan {
 		}
 		p.Actions = append(p.Actions, Action{At: at, Kind: "fwd", If: "eth0", On: false})
 	}
+	if rng.Bool(0.12) {
+		// what a normal RA says changes shortly before the stop (an address comes
+		// or goes under a ::/64 wildcard): the goodbye is the *current* normal RA
+		// with router lifetime 0, not the one hosts saw last
+		p.Class += "+tables-change-before-stop"
+		iw := &p.Nodes[0].Ifaces[0]
+		s.Prefixes = []PrefixSpec{{Prefix: sp("::/64")}}
+		if rng.Bool(0.3) {
+			s.RDNSS = []RDNSSSpec{{Servers: []string{"::"}}}
+		}
+		iw.Addrs = append(iw.Addrs, AddrW{CIDR: "2001:db8:a::1/64", Forever: true})
+		at := stop - int64(rng.Dur(time.Millisecond, 2500*time.Millisecond))
+		if at < 1000 {
+			at = 1000
+		}
+		p.Actions = append(p.Actions, Action{At: at, Kind: "addrs", If: "eth0", Addrs: append(append([]AddrW(nil), iw.Addrs...), AddrW{CIDR: "2001:db8:b::1/64", Forever: true})})
+	}
 	if stop > 3*nsSec && rng.Bool(0.12) {
 		// the stop arrives while the interface is being re-dialled after a link
 		// event, and the (slow) dial attempt then succeeds: hosts still hold the
@@ -231,9 +248,28 @@ func c08Oracle(info *runInfo, res *verifsim.Result) {
 	}
 	// If the signal task was parked on its way to cancelling everybody (slow
 	// supervisor socket), the advertisers are only asked to stop when it is let go.
+	// (Whether the notification comes before or after the cancellation is the
+	// daemon's business: if the tasks are seen to have been told to stop while
+	// the notification is still parked - the link watcher or the debug server
+	// going away, which only the server's own cancellation brings about - they
+	// were asked at the signal.)
 	parked := ""
 	for i := range h.ev {
 		e := &h.ev[i]
+		if parked != "" && e.Seq > stopSeq && ((e.K == "watch.exit" && e.Err == "") || e.K == "http.close") {
+			// (unless it was a failing task that cancelled everybody meanwhile)
+			failed := false
+			for j := range h.ev {
+				x := &h.ev[j]
+				if x.K == "task.exit" && x.Err != "" && x.Seq < e.Seq {
+					failed = true
+				}
+			}
+			if !failed {
+				res.Probe("cancelled_before_the_parked_notification_returned")
+				break
+			}
+		}
 		if e.Seq > stopSeq && e.K == "notify" && strings.Contains(e.F, "hold=") && strings.Contains(e.S, "STOPPING") {
 			parked = strings.TrimPrefix(e.F[strings.Index(e.F, "hold="):], "hold=")
 			if j := strings.IndexByte(parked, ','); j >= 0 {
@@ -408,6 +444,21 @@ func c08Iface(info *runInfo, res *verifsim.Result, h *history, ifn string, unica
 	for i := range h.ev {
 		e := &h.ev[i]
 		if e.Seq > stopSeq && e.If == ifn && e.Err != "" && e.Err != "deadline" && (e.K == "fwd.exit" || e.K == "write.exit") && isTaskGoroutine(info, e.G, ifn) {
+			finalFailed = true
+		}
+	}
+	for _, b := range h.builds {
+		// ... or one of its listings (a wildcard to expand, and the interface has
+		// just been re-created under another index)
+		if b.ifn != ifn || b.seq < stopSeq || !isTaskGoroutine(info, b.g, ifn) {
+			continue
+		}
+		for _, l := range append(append([]string(nil), b.addr...), b.routes...) {
+			if strings.HasPrefix(l, "!") {
+				finalFailed = true
+			}
+		}
+		if b.loopErr != "" {
 			finalFailed = true
 		}
 	}
